@@ -7,7 +7,7 @@ from sa.cfg import cfg_of
 from sa.flow import show, subterms
 from sa.model import AnalysisError, norm, parent, walk_no_nested
 
-from .common import include_rules, alts, callers_of, class_with_code, commands, is_call, is_plain_iter, need, prov, raised_class
+from .common import atomic_deps, loop_iteration_paths, include_rules, alts, callers_of, class_with_code, commands, is_call, is_plain_iter, need, prov, raised_class
 
 HIST = "ascmhl.history.MHLHistory"
 
@@ -311,6 +311,36 @@ def _rest(report, p, pr, info, reach, loader, c30, listers):
     okp = len(rel) == 1 and rec and norm(rec[0].value.args[0]) == norm(rel[0].targets[0]) and "os.path.abspath" in norm(rel[0].value)
     r3.check(okp, F, rel[0] if rel else F.node, "the path looked up is not the named file's path relative to the history root", construct="looked-up path")
 
+    # ------------------------------------------------------------------ R19.5
+    r5 = report.rule(
+        "R19.5",
+        "exactly one line per digest: inside the generation loop of the per-file listing the digest line is the only output that does not depend on `verbose` - every other "
+        "output statement, and every call that prints (the recursion into the file's previous name, which lists the same record again because a renamed record is indexed "
+        "under both names), executes only under a test of the verbose flag",
+        2,
+    )
+    log_funcs = {q for q, f_ in p.funcs.items() if f_.module.name.endswith(".logger")}
+    for c, tg in p.calls[F.qual]:
+        if not _inside(c, o):
+            continue
+        prints = any(t in log_funcs for t in tg) or norm(c.func) in ("print", "click.echo", "click.secho")
+        callee_prints = [t for t in tg if t in p.funcs and t not in log_funcs and p.funcs[t].module.name.endswith("commands") and (set(p.reachable([t])) & log_funcs)]
+        if not prints and not callee_prints:
+            continue
+        if any(c is l_ for l_ in logs):
+            continue
+        r5.instance(F, c, norm(c)[:70])
+        atoms5 = []
+        for t_, l_ in gF.necessary_branches(gF.node_for(c)):
+            atoms5 += atomic_deps(t_.ast, l_)
+        under_verbose = any("verbose" in a_ and ((l_ == "T" and " == False" not in a_ and " is False" not in a_) or (l_ == "F" and (" == False" in a_ or " is False" in a_))) for a_, l_ in atoms5)
+        r5.check(under_verbose, F, c, f"`{norm(c)[:70]}` prints inside the generation loop of `info -sf` also when verbose is off" + (": the recursive listing of the previous name finds the very same record (it is indexed under its former name as well) and prints its digests a second time, after the lines of the current name - more than one line per recorded digest, generations no longer ascending" if callee_prints else ""), construct=f"output outside the verbose branch: {norm(c.func)[:40]}")
+    # the non-verbose iteration prints exactly one digest line
+    n_lines = [len([x for x in trail if x.id in lid]) for kind, conds, trail in loop_iteration_paths(gF, iloop) if kind == "back" and not any("verbose" in a_ and l2 == "T" for c_, l_ in conds if l_ in ("T", "F") and not isinstance(c_, (ast.For, ast.While)) for a_, l2 in atomic_deps(c_, l_))]
+    r5.instance(F, i, "digest lines per entry iteration")
+    r5.check(bool(n_lines) and all(k == 1 for k in n_lines), F, i, f"an entry iteration of the per-file listing prints {sorted(set(n_lines))} digest line(s) with verbose off; exactly one is required", construct="digest lines per entry")
+
+    include_rules(report, p, 'c03', ['R3.16'], 'info must print every record: a sort that raises ends the listing')
     include_rules(report, p, 'c10', ['R10.8'], 'info prints what the readers loaded: a reader that stops early (a fast path that skips the <hashes> section, a break on some tag) makes info -sf print fewer digests than the manifests hold')
     include_rules(report, p, 'c06', ['R6.3'], 'the loader recognises every manifest name the tool generates, for every folder name: a generation that is silently passed over makes the history look shorter or empty' + ' - info lists fewer generations or exits 30')
     include_rules(report, p, 'c03', ['R3.11'], 'everything info prints goes through the logger')
